@@ -337,7 +337,7 @@ TEXT = {
         "text": "Lean model of the persistent cache (sorted index, insertion, lookup), of the cache-backed searcher, of LoadState through it "
                 "and of verification with checkpoints, threaded through the verification loop. Proved: insertion keeps the index "
                 "ascending and adds exactly the new entry; on an ascending index the lookup returns the greatest listed entry not above "
-                "the requested one, and this holds after ANY sequence of insertions in any order with repetitions (C08_inserts_sorted, C08_lookup_after_inserts); PopulatePersistentCache lists exactly the policy reference entries, ascending; a freshly populated (covering) "
+                "the requested one, and this holds after ANY sequence of insertions in any order with repetitions (C08_inserts_sorted, C08_lookup_after_inserts; C08_inserts_order_independent: the index depends only on the set of inserted entries); PopulatePersistentCache lists exactly the policy reference entries, ascending; a freshly populated (covering) "
                 "cache answers the policy look-up for any non-policy entry exactly as the scan of the log does, for every history "
                 "(C08_lookup_refines); the verdict of the verification loop never depends on the cache threaded through it - absent, stale, "
                 "fresh or populated at any earlier point (relLoopC_verdict, induction over the whole loop incl. recovery, every history / "
